@@ -123,22 +123,20 @@ func (c *c13Checker) pair(src, env string) (string, bool) {
 	}
 
 	plush.CacheEnabled = false
-	t0, perr := plush.Parse(src)
-	if perr != nil {
-		// parse errors: same message on every route
-		add("parse", Obs{Err: perr})
-		_, e2 := plush.NewTemplate(src)
-		add("parse-fresh", Obs{Err: e2})
-		plush.CacheEnabled = true
-		plush.VerifCacheReset()
-		for i := 0; i < 2; i++ {
-			o := safeCall(5*time.Second, func() (string, error) { return plush.Render(src, c13NewCtx(env)) })
-			add("parse-cache", o)
+	var t0, pt *plush.Template
+	var perr, pe error
+	if o := safeCall(5*time.Second, func() (string, error) { pt, pe = plush.Parse(src); return "", nil }); o.Kind() != "OK" {
+		// the parser itself panics or hangs (not C13's subject): the outcome is compared on the cheap routes only
+		rep.Tag("parser-" + strings.ToLower(o.Kind()))
+		add("parse", o)
+		if !o.Hang {
+			add("parse-fresh", safeCall(5*time.Second, func() (string, error) { _, err := plush.NewTemplate(src); return "", err }))
+			add("lazy-exec", c13Render(&plush.Template{Input: src}, env))
 		}
-		plush.CacheEnabled = false
-		plush.VerifCacheReset()
+	} else if t0, perr = pt, pe; perr != nil {
+		c.parseErrorRoutes(cs, src, env, perr, add, mutated)
 		rep.Tag("parse-error")
-	} else {
+	} else if t0 != nil {
 		d0 := dumpProgram(t0.VerifProgram())
 		// fresh parse each time
 		for i := 0; i < max(2, c.r/2); i++ {
@@ -152,6 +150,14 @@ func (c *c13Checker) pair(src, env string) (string, bool) {
 		for i := 0; i < c.r; i++ {
 			add("reexec", c13Render(t0, env))
 			mutated("reexec", d0, dumpProgram(t0.VerifProgram()))
+		}
+		// a template value that is parsed lazily, by its first Exec
+		lz := &plush.Template{Input: src}
+		for i := 0; i < 2; i++ {
+			add("lazy", c13Render(lz, env))
+			if lz.VerifProgram() != nil {
+				mutated("lazy", d0, dumpProgram(lz.VerifProgram()))
+			}
 		}
 		// clones, made after the executions above and used alternately with the original
 		c1 := t0.Clone()
@@ -221,6 +227,24 @@ func (c *c13Checker) pair(src, env string) (string, bool) {
 			within = true
 		}
 	}
+	if perr != nil && !varies {
+		// the text does not parse and a fresh parse is consistent with itself: every other route (also a later
+		// execution on the same route) has to report what the fresh parse reports
+		for _, route := range c13FailedRoutes {
+			var got []string
+			for k := range byRoute[route] {
+				if k != ref {
+					got = append(got, k)
+				}
+			}
+			if len(got) == 0 {
+				continue
+			}
+			sort.Strings(got)
+			c.fail(cs, "wrong-output", route+"-diverges", "the text does not parse; a fresh parse gives "+c13Short(ref)+" but route "+route+" gives "+c13Short(got[0]))
+		}
+		return ref, false
+	}
 	if varies || within {
 		if varies {
 			outs = fouts
@@ -230,7 +254,7 @@ func (c *c13Checker) pair(src, env string) (string, bool) {
 		return ref, false
 	}
 	// every route is consistent with itself but the routes disagree
-	for _, route := range []string{"reexec", "clone", "cache-cold", "cache-warm", "parse-fresh", "parse-cache"} {
+	for _, route := range []string{"reexec", "lazy", "clone", "cache-cold", "cache-warm", "parse-fresh", "parse-cache", "lazy-exec"} {
 		m := byRoute[route]
 		if m == nil || m[ref] {
 			continue
@@ -268,12 +292,21 @@ func (c *c13Checker) history(cs c13Case, ref map[[2]int]string) {
 	ts := make([]*plush.Template, len(cs.Tmpl))
 	dumps := make([]string, len(cs.Tmpl))
 	for i, src := range cs.Tmpl {
-		t, err := plush.Parse(src)
-		if err != nil {
+		var t *plush.Template
+		var err error
+		if o := safeCall(5*time.Second, func() (string, error) { t, err = plush.Parse(src); return "", nil }); o.Kind() != "OK" {
 			return
 		}
+		if err != nil {
+			// the text does not parse: the history keeps using the template value handed back next to the error
+			// (every execution of it has to report the syntax error again)
+			rep.Tag("history-with-parse-error")
+			if t == nil || i%2 == 1 {
+				t = &plush.Template{Input: src}
+			}
+		}
 		ts[i] = t
-		dumps[i] = dumpProgram(t.VerifProgram())
+		dumps[i] = c13Dump(t)
 	}
 	for step, h := range cs.Hist {
 		if _, ok := ref[h]; !ok {
@@ -285,7 +318,7 @@ func (c *c13Checker) history(cs c13Case, ref map[[2]int]string) {
 			break
 		}
 		for i := range ts {
-			if d := dumpProgram(ts[i].VerifProgram()); d != dumps[i] {
+			if d := c13Dump(ts[i]); d != dumps[i] && dumps[i] != "nil" {
 				c.fail(cs, "wrong-output", "exec-mutates-ast", fmt.Sprintf("step %d changed the parsed program of template %d", step, i))
 				dumps[i] = d
 			}
@@ -314,7 +347,7 @@ func (c *c13Checker) history(cs c13Case, ref map[[2]int]string) {
 			}
 			if tc.Input != src {
 				c.fail(cs, "wrong-output", "cache-returns-other-template", fmt.Sprintf("Parse(template %d) with the cache on returned a template for %s", i, c13Short(fmt.Sprintf("%q", tc.Input))))
-			} else if d := dumpProgram(tc.VerifProgram()); d != dumps[i] {
+			} else if d := c13Dump(tc); d != dumps[i] {
 				c.fail(cs, "wrong-output", "exec-mutates-ast", fmt.Sprintf("the cached program of template %d differs from a fresh parse after the history", i))
 			}
 		}
@@ -357,7 +390,7 @@ func (c *c13Checker) run(cs c13Case) {
 func init() {
 	oracles["C13"] = func(cfg Config) []*Report {
 		rep := NewReport("C13", "C13", cfg)
-		rep.Rule = "structured programs over text, output, let, assignment, if/else-if/else, for over slices/array literals/iterators/Go maps/hash literals, user functions, hash literals (1-8 entries; ~20% with a duplicate key, values tick()/fail()), arrays, index, field/method access, block helpers, partials (also nested and with layout), contentFor/contentOf, index assignment, break/continue; each (template, data) is run via fresh Parse, r re-Execs of one template, Clone, cache cold, cache warm; groups of 2-3 templates x 2 data sets additionally in an interleaved history with the cache off / cold / warm. All generated programs parse; about 65% render without error, the rest fail at run time (unknown identifiers, index out of range, failing helpers, missing partials/blocks); non-trivial = contains a tag; distinct by case text"
+		rep.Rule = "structured programs over text, output, let, assignment, if/else-if/else, for over slices/array literals/iterators/Go maps/hash literals, user functions, hash literals (1-8 entries; ~20% with a duplicate key, values tick()/fail()), arrays, index, field/method access, block helpers, partials (also nested and with layout), contentFor/contentOf, index assignment, break/continue; each (template, data) is run via fresh Parse, r re-Execs of one template, Clone, cache cold, cache warm; groups of 2-3 templates x 2 data sets additionally in an interleaved history with the cache off / cold / warm. These programs all parse; about 65% render without error, the rest fail at run time (unknown identifiers, index out of range, failing helpers, missing partials/blocks); in addition (first, on its own random stream) texts that do NOT parse: a generated program damaged in one place (a structural token dropped or doubled, truncation, dangling operator, a broken tag inserted before any tag or appended; damaged texts that still parse are discarded and damaged again), alone and in histories together with programs that parse; such a text is run via fresh parse, Render, repeated Exec / Parse / Clone of the template value handed back next to the error, a lazily parsed Template value and its clone, cache cold and warm, and must report the error of the fresh parse every time; non-trivial = contains a tag; distinct by case text"
 		defer func() {
 			plush.CacheEnabled = false
 			plush.VerifCacheReset()
@@ -375,6 +408,7 @@ func init() {
 		for _, cs := range c13Corpus {
 			ck.run(cs)
 		}
+		ck.syntaxErrors(cfg)
 		rng := NewRng(cfg.Seed).Fork(13)
 		gen := c13NewGen(rng.Fork(1), c13GenOpt{})
 		groups := cfg.N(750, 2000)
